@@ -254,6 +254,8 @@ func (m Model) errVal(v Val, absentWhenNil bool) (Exp, bool) {
 		return null, true
 	case "objerr":
 		return Exp{Kind: "obj", O: []ExpField{{"objerr", str(v.S)}}}, true
+	case "nilslice":
+		return strS(sliceErrText), true
 	}
 	return str(v.S), true
 }
@@ -408,7 +410,7 @@ func (m Model) fieldsVal(v Val, st *evState) (Exp, []ExpField) {
 		var extra []ExpField
 		// the error arm (plain and typed-nil errors; a nil interface is `case nil`, an
 		// error that is a LogObjectMarshaler is handled before the switch)
-		if (v.EK == "plain" || v.EK == "" || v.EK == "typednil" || v.EK == "stacked") && st.stack {
+		if (v.EK == "plain" || v.EK == "" || v.EK == "typednil" || v.EK == "stacked" || v.EK == "nilslice") && st.stack {
 			if sv, ok := m.stackVal(true, v.EK); ok {
 				extra = append(extra, ExpField{m.stackField(), sv})
 			}
